@@ -268,17 +268,32 @@ func (c *Ctx) checkLoopCarriedValues(r *Report, rule string) {
 				// that brings the phi itself back, from a block reached through a call of evalInternal in the cycle
 				// (evalStatements overwrites its result whenever it evaluates a statement: not concerned)
 				survives := false
-				var canBe func(v ssa.Value, depth int) bool
-				canBe = func(v ssa.Value, depth int) bool {
-					if v == ssa.Value(phi) {
-						return true
+				evalBlocks := []*ssa.BasicBlock{}
+				for _, cb := range fn.Blocks {
+					for _, x := range cb.Instrs {
+						if call, ok := x.(*ssa.Call); ok && call.Common().StaticCallee() == evalInternal {
+							evalBlocks = append(evalBlocks, cb)
+							break
+						}
 					}
+				}
+				// the phi's own value comes back along `pred` after an evaluation happened in this iteration
+				var comesBack func(v ssa.Value, pred *ssa.BasicBlock, depth int) bool
+				comesBack = func(v ssa.Value, pred *ssa.BasicBlock, depth int) bool {
 					if depth > 4 {
 						return false
 					}
-					if p2, ok := v.(*ssa.Phi); ok {
-						for _, e2 := range p2.Edges {
-							if canBe(e2, depth+1) {
+					if v == ssa.Value(phi) {
+						for _, cb := range evalBlocks {
+							if reachesWithout(b, cb, nil) && reachesWithout(cb, pred, b) {
+								return true
+							}
+						}
+						return false
+					}
+					if p2, ok := v.(*ssa.Phi); ok && p2 != phi {
+						for j, e2 := range p2.Edges {
+							if comesBack(e2, p2.Block().Preds[j], depth+1) {
 								return true
 							}
 						}
@@ -286,19 +301,8 @@ func (c *Ctx) checkLoopCarriedValues(r *Report, rule string) {
 					return false
 				}
 				for i, e := range phi.Edges {
-					if !b.Dominates(b.Preds[i]) || !canBe(e, 0) {
-						continue
-					}
-					for _, cb := range fn.Blocks {
-						hasEval := false
-						for _, x := range cb.Instrs {
-							if call, ok := x.(*ssa.Call); ok && call.Common().StaticCallee() == evalInternal {
-								hasEval = true
-							}
-						}
-						if hasEval && reachesWithout(b, cb, nil) && reachesWithout(cb, b.Preds[i], b) {
-							survives = true
-						}
+					if b.Dominates(b.Preds[i]) && comesBack(e, b.Preds[i], 0) {
+						survives = true
 					}
 				}
 				if !survives {
